@@ -185,6 +185,21 @@ Section Statements.
     verify_native chain t = Accept -> verify_eth cn (set_type t eth_type) = Accept ->
     sha256 (preimage t) = keccak (from_hex (t_extra t)).
   Proof. exact (type_to_eth_mutation sha256 keccak recover verify_sig). Qed.
+
+  (* ---- the chain id is a function of the height (common.ChainId / common.GetChainId) ---- *)
+  Notation verify_at := (verify_at sha256 keccak recover verify_sig).
+
+  (* Accepted at a height where the chain id is X => rejected at every height where it is not X. *)
+  Theorem C07_fork_native : forall c h1 h2 t,
+    t_type t <> eth_type -> verify_at c h1 t = Accept -> chain_id_at c h2 <> chain_id_at c h1 ->
+    verify_at c h2 t = RChainId.
+  Proof. exact (fork_native sha256 keccak recover verify_sig). Qed.
+
+  Theorem C07_fork_eth : forall c h1 h2 t v e,
+    t_type t = eth_type -> decode_etx (from_hex (t_extra t)) = Some (v, e) -> protected_v (e_v e) = true ->
+    verify_at c h1 t = Accept -> chain_n_at c h2 <> chain_n_at c h1 ->
+    verify_at c h2 t = RIllegal.
+  Proof. exact (fork_eth sha256 keccak recover verify_sig). Qed.
 End Statements.
 
 Print Assumptions C07_native_sound.
@@ -206,6 +221,15 @@ Print Assumptions C07_eth_complete.
 Print Assumptions C07_verify_dispatch.
 Print Assumptions C07_verify_field_mutation_rejected.
 Print Assumptions C07_type_to_eth_mutation.
+Print Assumptions C07_fork_native.
+Print Assumptions C07_fork_eth.
+
+(* the mainnet-shaped configuration used by the harness: the hypotheses of the fork theorems are satisfiable *)
+Example C07_fork_config_example :
+  let c := mkCfg (B "2025") (B "8888") 1000 in
+  chain_id_at c 999 = B "8888" /\ chain_id_at c 1000 = B "2025" /\
+  chain_n_at c 999 = 8888 /\ chain_n_at c 1000 = 2025 /\ chain_n_at c 999 <> chain_n_at c 1000.
+Proof. vm_compute. repeat split; try reflexivity. discriminate. Qed.
 
 (* ---- the confirmed defect, concretely (dev chain, id 9500) ----
    A Homestead-signed payload (V = 28) wrapped with ChainId "0".  The only fact about the curve that is used
